@@ -1,0 +1,344 @@
+//go:build verif
+
+package sshd
+
+// Contracts for the verification tooling (build tag "verif"). Comment-only: never compiled into the daemon.
+// Syntax: see /verif/DESIGN.md section 3.3. `out` is the ghost trace of events handed to the EventWriter,
+// sent(ch,i) / sentlen(ch) the ghost trace of channel sends, ctr(l1,l2) / ctrsum the login counters,
+// group(re, s, "Name") the capture group of re's match on s, matches(re, s) whether re matches s.
+
+//@ nonnil logger
+//@
+//@ pred CfgOK(c) := c != nil && c.metrics != nil && c.metrics.remoteLogins != nil && c.eventW != nil && c.ctx != nil
+//@ pred Std(c, i, outcome) := out[i].Type == "UserLogin" && out[i].Component == "sshd" && out[i].Outcome == outcome
+//@   | && out[i].LoggedAt == c.when && out[i].Source.Type == "IP"
+//@   | && has(out[i].Target, "host") && out[i].Target["host"] == c.nodeName
+//@   | && has(out[i].Target, "machine-id") && out[i].Target["machine-id"] == c.machineID
+//@   | && has(out[i].Subjects, "pid") && out[i].Subjects["pid"] == c.pid
+//@ pred Subj(i, k, v) := has(out[i].Subjects, k) && out[i].Subjects[k] == v
+//@ pred SrcExtra(i, k, v) := has(out[i].Source.Extra, k) && unbox_string(out[i].Source.Extra[k]) == v
+//@   | && dyn(out[i].Source.Extra[k]) == typeid("string")
+//@ pred MetaExtra(i, k, v) := has(out[i].Metadata.Extra, k) && unbox_string(out[i].Metadata.Extra[k]) == v
+//@   | && dyn(out[i].Metadata.Extra[k]) == typeid("string")
+//@ pred NoSrcExtra(i) := forall k string :: !has(out[i].Source.Extra, k)
+//@ pred Placeholder(v) := v == "unknown" || v == "root" || v == "unknown reason"
+//@ pred FromLine(c, v) := contains(c.logEntry, v) || Placeholder(v)
+//@ pred SubjectsFromLine(c, i) := forall k string :: has(out[i].Subjects, k) && k != "pid" ==> FromLine(c, out[i].Subjects[k])
+//@ pred OneCount(l1, l2) := ctrsum == old(ctrsum) + 1 && ctr(l1, l2) == old(ctr(l1, l2)) + 1
+//@ pred Keyword(line) := prefixof("Accepted publickey", line) || prefixof("Accepted password", line)
+//@   | || prefixof("Certificate invalid", line) || prefixof("Invalid user", line) || prefixof("User ", line)
+//@   | || prefixof("ROOT LOGIN REFUSED FROM ", line) || prefixof("Authentication refused for ", line)
+//@   | || prefixof("Nasty PTR record ", line) || prefixof("reverse mapping checking getaddrinfo for ", line)
+//@   | || prefixof("Address ", line) || prefixof("maximum authentication attempts exceeded for ", line)
+//@   | || prefixof("Authentication key ", line) || prefixof("Error checking authentication key ", line)
+//@   | || prefixof("Failed password for ", line)
+
+//@ func processNotInAllowUsersEntry
+//@   requires CfgOK(config)
+//@   modifies out
+//@   allocates
+//@   ensures[err] result != nil ==> len(out) == old(len(out)) && wfailed
+//@   ensures[one] len(out) == old(len(out)) || len(out) == old(len(out)) + 1
+//@   ensures[match] result == nil && matches(notInAllowUsersRE, config.logEntry) ==> len(out) == old(len(out)) + 1
+//@   ensures[only] len(out) == old(len(out)) + 1 ==> matches(notInAllowUsersRE, config.logEntry) && result == nil
+//@   ensures[fields] len(out) == old(len(out)) + 1 ==> Std(config, old(len(out)), "failed")
+//@   |   && Subj(old(len(out)), "loggedAs", group(notInAllowUsersRE, config.logEntry, "Username"))
+//@   |   && Subj(old(len(out)), "userID", "unknown")
+//@   |   && out[old(len(out))].Source.Value == group(notInAllowUsersRE, config.logEntry, "Source")
+//@   |   && NoSrcExtra(old(len(out)))
+//@   ensures[sub] len(out) == old(len(out)) + 1 ==> SubjectsFromLine(config, old(len(out))) && FromLine(config, out[old(len(out))].Source.Value)
+//@   ensures[kw] len(out) == old(len(out)) + 1 ==> prefixof("User ", config.logEntry)
+//@   ensures[nosend] sentlen(config.logins) == old(sentlen(config.logins))
+//@   ensures[ctr] ctrsum == old(ctrsum)
+
+//@ func userInDenyUsers
+//@   requires CfgOK(config)
+//@   modifies out
+//@   allocates
+//@   ensures[err] result != nil ==> len(out) == old(len(out)) && wfailed
+//@   ensures[one] len(out) == old(len(out)) || len(out) == old(len(out)) + 1
+//@   ensures[match] result == nil && matches(userInDenyUsersRE, config.logEntry) ==> len(out) == old(len(out)) + 1
+//@   ensures[only] len(out) == old(len(out)) + 1 ==> matches(userInDenyUsersRE, config.logEntry) && result == nil
+//@   ensures[fields] len(out) == old(len(out)) + 1 ==> Std(config, old(len(out)), "failed")
+//@   |   && Subj(old(len(out)), "loggedAs", group(userInDenyUsersRE, config.logEntry, "Username"))
+//@   |   && Subj(old(len(out)), "userID", "unknown")
+//@   |   && out[old(len(out))].Source.Value == group(userInDenyUsersRE, config.logEntry, "Source")
+//@   |   && NoSrcExtra(old(len(out)))
+//@   ensures[sub] len(out) == old(len(out)) + 1 ==> SubjectsFromLine(config, old(len(out))) && FromLine(config, out[old(len(out))].Source.Value)
+//@   ensures[kw] len(out) == old(len(out)) + 1 ==> prefixof("User ", config.logEntry)
+//@   ensures[nosend] sentlen(config.logins) == old(sentlen(config.logins))
+//@   ensures[ctr] ctrsum == old(ctrsum)
+
+//@ func userNotInAnyGroup
+//@   requires CfgOK(config)
+//@   modifies out
+//@   allocates
+//@   ensures[err] result != nil ==> len(out) == old(len(out)) && wfailed
+//@   ensures[one] len(out) == old(len(out)) || len(out) == old(len(out)) + 1
+//@   ensures[match] result == nil && matches(userNotInAnyGroupRE, config.logEntry) ==> len(out) == old(len(out)) + 1
+//@   ensures[only] len(out) == old(len(out)) + 1 ==> matches(userNotInAnyGroupRE, config.logEntry) && result == nil
+//@   ensures[fields] len(out) == old(len(out)) + 1 ==> Std(config, old(len(out)), "failed")
+//@   |   && Subj(old(len(out)), "loggedAs", group(userNotInAnyGroupRE, config.logEntry, "Username"))
+//@   |   && Subj(old(len(out)), "userID", "unknown")
+//@   |   && out[old(len(out))].Source.Value == group(userNotInAnyGroupRE, config.logEntry, "Source")
+//@   |   && NoSrcExtra(old(len(out)))
+//@   ensures[sub] len(out) == old(len(out)) + 1 ==> SubjectsFromLine(config, old(len(out))) && FromLine(config, out[old(len(out))].Source.Value)
+//@   ensures[kw] len(out) == old(len(out)) + 1 ==> prefixof("User ", config.logEntry)
+//@   ensures[nosend] sentlen(config.logins) == old(sentlen(config.logins))
+//@   ensures[ctr] ctrsum == old(ctrsum)
+
+//@ func userGroupInDenyGroups
+//@   requires CfgOK(config)
+//@   modifies out
+//@   allocates
+//@   ensures[err] result != nil ==> len(out) == old(len(out)) && wfailed
+//@   ensures[one] len(out) == old(len(out)) || len(out) == old(len(out)) + 1
+//@   ensures[match] result == nil && matches(userGroupInDenyGroupsRE, config.logEntry) ==> len(out) == old(len(out)) + 1
+//@   ensures[only] len(out) == old(len(out)) + 1 ==> matches(userGroupInDenyGroupsRE, config.logEntry) && result == nil
+//@   ensures[fields] len(out) == old(len(out)) + 1 ==> Std(config, old(len(out)), "failed")
+//@   |   && Subj(old(len(out)), "loggedAs", group(userGroupInDenyGroupsRE, config.logEntry, "Username"))
+//@   |   && Subj(old(len(out)), "userID", "unknown")
+//@   |   && out[old(len(out))].Source.Value == group(userGroupInDenyGroupsRE, config.logEntry, "Source")
+//@   |   && NoSrcExtra(old(len(out)))
+//@   ensures[sub] len(out) == old(len(out)) + 1 ==> SubjectsFromLine(config, old(len(out))) && FromLine(config, out[old(len(out))].Source.Value)
+//@   ensures[kw] len(out) == old(len(out)) + 1 ==> prefixof("User ", config.logEntry)
+//@   ensures[nosend] sentlen(config.logins) == old(sentlen(config.logins))
+//@   ensures[ctr] ctrsum == old(ctrsum)
+
+//@ func userGroupNotListedInAllowGroups
+//@   requires CfgOK(config)
+//@   modifies out
+//@   allocates
+//@   ensures[err] result != nil ==> len(out) == old(len(out)) && wfailed
+//@   ensures[one] len(out) == old(len(out)) || len(out) == old(len(out)) + 1
+//@   ensures[match] result == nil && matches(userGroupNotListedInAllowGroupsRE, config.logEntry) ==> len(out) == old(len(out)) + 1
+//@   ensures[only] len(out) == old(len(out)) + 1 ==> matches(userGroupNotListedInAllowGroupsRE, config.logEntry) && result == nil
+//@   ensures[fields] len(out) == old(len(out)) + 1 ==> Std(config, old(len(out)), "failed")
+//@   |   && Subj(old(len(out)), "loggedAs", group(userGroupNotListedInAllowGroupsRE, config.logEntry, "Username"))
+//@   |   && Subj(old(len(out)), "userID", "unknown")
+//@   |   && out[old(len(out))].Source.Value == group(userGroupNotListedInAllowGroupsRE, config.logEntry, "Source")
+//@   |   && NoSrcExtra(old(len(out)))
+//@   ensures[sub] len(out) == old(len(out)) + 1 ==> SubjectsFromLine(config, old(len(out))) && FromLine(config, out[old(len(out))].Source.Value)
+//@   ensures[kw] len(out) == old(len(out)) + 1 ==> prefixof("User ", config.logEntry)
+//@   ensures[nosend] sentlen(config.logins) == old(sentlen(config.logins))
+//@   ensures[ctr] ctrsum == old(ctrsum)
+
+//@ func userNonExistentShell
+//@   requires CfgOK(config)
+//@   modifies out
+//@   allocates
+//@   ensures[err] result != nil ==> len(out) == old(len(out)) && wfailed
+//@   ensures[one] len(out) == old(len(out)) || len(out) == old(len(out)) + 1
+//@   ensures[match] result == nil && matches(userNonExistentShellRE, config.logEntry) ==> len(out) == old(len(out)) + 1
+//@   ensures[only] len(out) == old(len(out)) + 1 ==> matches(userNonExistentShellRE, config.logEntry) && result == nil
+//@   ensures[fields] len(out) == old(len(out)) + 1 ==> Std(config, old(len(out)), "failed")
+//@   |   && Subj(old(len(out)), "loggedAs", group(userNonExistentShellRE, config.logEntry, "Username"))
+//@   |   && Subj(old(len(out)), "userID", "unknown")
+//@   |   && out[old(len(out))].Source.Value == "unknown"
+//@   |   && MetaExtra(old(len(out)), "shell", group(userNonExistentShellRE, config.logEntry, "Shell"))
+//@   ensures[sub] len(out) == old(len(out)) + 1 ==> SubjectsFromLine(config, old(len(out))) && FromLine(config, out[old(len(out))].Source.Value)
+//@   ensures[kw] len(out) == old(len(out)) + 1 ==> prefixof("User ", config.logEntry)
+//@   ensures[nosend] sentlen(config.logins) == old(sentlen(config.logins))
+//@   ensures[ctr] ctrsum == old(ctrsum)
+
+//@ func userNonExecutableShell
+//@   requires CfgOK(config)
+//@   modifies out
+//@   allocates
+//@   ensures[err] result != nil ==> len(out) == old(len(out)) && wfailed
+//@   ensures[one] len(out) == old(len(out)) || len(out) == old(len(out)) + 1
+//@   ensures[match] result == nil && matches(userNonExecutableShellRE, config.logEntry) ==> len(out) == old(len(out)) + 1
+//@   ensures[only] len(out) == old(len(out)) + 1 ==> matches(userNonExecutableShellRE, config.logEntry) && result == nil
+//@   ensures[fields] len(out) == old(len(out)) + 1 ==> Std(config, old(len(out)), "failed")
+//@   |   && Subj(old(len(out)), "loggedAs", group(userNonExecutableShellRE, config.logEntry, "Username"))
+//@   |   && Subj(old(len(out)), "userID", "unknown")
+//@   |   && out[old(len(out))].Source.Value == "unknown"
+//@   |   && MetaExtra(old(len(out)), "shell", group(userNonExecutableShellRE, config.logEntry, "Shell"))
+//@   ensures[sub] len(out) == old(len(out)) + 1 ==> SubjectsFromLine(config, old(len(out))) && FromLine(config, out[old(len(out))].Source.Value)
+//@   ensures[kw] len(out) == old(len(out)) + 1 ==> prefixof("User ", config.logEntry)
+//@   ensures[nosend] sentlen(config.logins) == old(sentlen(config.logins))
+//@   ensures[ctr] ctrsum == old(ctrsum)
+
+//@ func rootLoginRefused
+//@   requires CfgOK(config)
+//@   modifies out
+//@   allocates
+//@   ensures[err] result != nil ==> len(out) == old(len(out)) && wfailed
+//@   ensures[one] len(out) == old(len(out)) || len(out) == old(len(out)) + 1
+//@   ensures[match] result == nil && matches(rootLoginRefusedRE, config.logEntry) ==> len(out) == old(len(out)) + 1
+//@   ensures[only] len(out) == old(len(out)) + 1 ==> matches(rootLoginRefusedRE, config.logEntry) && result == nil
+//@   ensures[fields] len(out) == old(len(out)) + 1 ==> Std(config, old(len(out)), "failed")
+//@   |   && Subj(old(len(out)), "loggedAs", "root")
+//@   |   && Subj(old(len(out)), "userID", "unknown")
+//@   |   && out[old(len(out))].Source.Value == group(rootLoginRefusedRE, config.logEntry, "Source")
+//@   |   && SrcExtra(old(len(out)), "port", group(rootLoginRefusedRE, config.logEntry, "Port"))
+//@   ensures[sub] len(out) == old(len(out)) + 1 ==> SubjectsFromLine(config, old(len(out))) && FromLine(config, out[old(len(out))].Source.Value)
+//@   ensures[kw] len(out) == old(len(out)) + 1 ==> prefixof("ROOT LOGIN REFUSED FROM ", config.logEntry)
+//@   ensures[nosend] sentlen(config.logins) == old(sentlen(config.logins))
+//@   ensures[ctr] ctrsum == old(ctrsum)
+
+//@ func badOwnerOrModesForHostFile
+//@   requires CfgOK(config)
+//@   modifies out
+//@   allocates
+//@   ensures[err] result != nil ==> len(out) == old(len(out)) && wfailed
+//@   ensures[one] len(out) == old(len(out)) || len(out) == old(len(out)) + 1
+//@   ensures[match] result == nil && matches(badOwnerOrModesForHostFileRE, config.logEntry) ==> len(out) == old(len(out)) + 1
+//@   ensures[only] len(out) == old(len(out)) + 1 ==> matches(badOwnerOrModesForHostFileRE, config.logEntry) && result == nil
+//@   ensures[fields] len(out) == old(len(out)) + 1 ==> Std(config, old(len(out)), "failed")
+//@   |   && Subj(old(len(out)), "loggedAs", group(badOwnerOrModesForHostFileRE, config.logEntry, "Username"))
+//@   |   && Subj(old(len(out)), "userID", "unknown")
+//@   |   && out[old(len(out))].Source.Value == "unknown"
+//@   |   && Subj(old(len(out)), "filePath", group(badOwnerOrModesForHostFileRE, config.logEntry, "FilePath"))
+//@   ensures[sub] len(out) == old(len(out)) + 1 ==> SubjectsFromLine(config, old(len(out))) && FromLine(config, out[old(len(out))].Source.Value)
+//@   ensures[kw] len(out) == old(len(out)) + 1 ==> prefixof("Authentication refused for ", config.logEntry)
+//@   ensures[nosend] sentlen(config.logins) == old(sentlen(config.logins))
+//@   ensures[ctr] ctrsum == old(ctrsum)
+
+//@ func maxAuthAttemptsExceeded
+//@   requires CfgOK(config)
+//@   modifies out
+//@   allocates
+//@   ensures[err] result != nil ==> len(out) == old(len(out)) && wfailed
+//@   ensures[one] len(out) == old(len(out)) || len(out) == old(len(out)) + 1
+//@   ensures[match] result == nil && matches(maxAuthAttemptsExceededRE, config.logEntry) ==> len(out) == old(len(out)) + 1
+//@   ensures[only] len(out) == old(len(out)) + 1 ==> matches(maxAuthAttemptsExceededRE, config.logEntry) && result == nil
+//@   ensures[fields] len(out) == old(len(out)) + 1 ==> Std(config, old(len(out)), "failed")
+//@   |   && Subj(old(len(out)), "loggedAs", group(maxAuthAttemptsExceededRE, config.logEntry, "Username"))
+//@   |   && Subj(old(len(out)), "userID", "unknown")
+//@   |   && out[old(len(out))].Source.Value == group(maxAuthAttemptsExceededRE, config.logEntry, "Source")
+//@   |   && SrcExtra(old(len(out)), "port", group(maxAuthAttemptsExceededRE, config.logEntry, "Port"))
+//@   ensures[sub] len(out) == old(len(out)) + 1 ==> SubjectsFromLine(config, old(len(out))) && FromLine(config, out[old(len(out))].Source.Value)
+//@   ensures[kw] len(out) == old(len(out)) + 1 ==> prefixof("maximum authentication attempts exceeded for ", config.logEntry)
+//@   ensures[nosend] sentlen(config.logins) == old(sentlen(config.logins))
+//@   ensures[ctr] ctrsum == old(ctrsum)
+
+//@ func failedPasswordAuth
+//@   requires CfgOK(config)
+//@   modifies out
+//@   allocates
+//@   ensures[err] result != nil ==> len(out) == old(len(out)) && wfailed
+//@   ensures[one] len(out) == old(len(out)) || len(out) == old(len(out)) + 1
+//@   ensures[match] result == nil && matches(failedPasswordAuthRE, config.logEntry) ==> len(out) == old(len(out)) + 1
+//@   ensures[only] len(out) == old(len(out)) + 1 ==> matches(failedPasswordAuthRE, config.logEntry) && result == nil
+//@   ensures[fields] len(out) == old(len(out)) + 1 ==> Std(config, old(len(out)), "failed")
+//@   |   && Subj(old(len(out)), "loggedAs", group(failedPasswordAuthRE, config.logEntry, "Username"))
+//@   |   && Subj(old(len(out)), "userID", "unknown")
+//@   |   && out[old(len(out))].Source.Value == group(failedPasswordAuthRE, config.logEntry, "Source")
+//@   |   && SrcExtra(old(len(out)), "port", group(failedPasswordAuthRE, config.logEntry, "Port"))
+//@   ensures[sub] len(out) == old(len(out)) + 1 ==> SubjectsFromLine(config, old(len(out))) && FromLine(config, out[old(len(out))].Source.Value)
+//@   ensures[kw] len(out) == old(len(out)) + 1 ==> prefixof("Failed password for ", config.logEntry)
+//@   ensures[nosend] sentlen(config.logins) == old(sentlen(config.logins))
+//@   ensures[ctr] ctrsum == old(ctrsum)
+
+//@ func nastyPTRRecord
+//@   requires CfgOK(config)
+//@   modifies out
+//@   allocates
+//@   ensures[err] result != nil ==> len(out) == old(len(out)) && wfailed
+//@   ensures[one] len(out) == old(len(out)) || len(out) == old(len(out)) + 1
+//@   ensures[match] result == nil && matches(nastyPTRRecordRE, config.logEntry) ==> len(out) == old(len(out)) + 1
+//@   ensures[only] len(out) == old(len(out)) + 1 ==> matches(nastyPTRRecordRE, config.logEntry) && result == nil
+//@   ensures[fields] len(out) == old(len(out)) + 1 ==> Std(config, old(len(out)), "failed")
+//@   |   && Subj(old(len(out)), "loggedAs", "unknown")
+//@   |   && Subj(old(len(out)), "userID", "unknown")
+//@   |   && out[old(len(out))].Source.Value == group(nastyPTRRecordRE, config.logEntry, "Source")
+//@   |   && SrcExtra(old(len(out)), "dns", group(nastyPTRRecordRE, config.logEntry, "DNSName"))
+//@   ensures[sub] len(out) == old(len(out)) + 1 ==> SubjectsFromLine(config, old(len(out))) && FromLine(config, out[old(len(out))].Source.Value)
+//@   ensures[kw] len(out) == old(len(out)) + 1 ==> prefixof("Nasty PTR record ", config.logEntry)
+//@   ensures[nosend] sentlen(config.logins) == old(sentlen(config.logins))
+//@   ensures[ctr] ctrsum == old(ctrsum)
+
+//@ func reverseMappingCheckFailed
+//@   requires CfgOK(config)
+//@   modifies out
+//@   allocates
+//@   ensures[err] result != nil ==> len(out) == old(len(out)) && wfailed
+//@   ensures[one] len(out) == old(len(out)) || len(out) == old(len(out)) + 1
+//@   ensures[match] result == nil && matches(reverseMappingCheckFailedRE, config.logEntry) ==> len(out) == old(len(out)) + 1
+//@   ensures[only] len(out) == old(len(out)) + 1 ==> matches(reverseMappingCheckFailedRE, config.logEntry) && result == nil
+//@   ensures[fields] len(out) == old(len(out)) + 1 ==> Std(config, old(len(out)), "failed")
+//@   |   && Subj(old(len(out)), "loggedAs", "unknown")
+//@   |   && Subj(old(len(out)), "userID", "unknown")
+//@   |   && out[old(len(out))].Source.Value == group(reverseMappingCheckFailedRE, config.logEntry, "Source")
+//@   |   && SrcExtra(old(len(out)), "dns", group(reverseMappingCheckFailedRE, config.logEntry, "DNSName"))
+//@   ensures[sub] len(out) == old(len(out)) + 1 ==> SubjectsFromLine(config, old(len(out))) && FromLine(config, out[old(len(out))].Source.Value)
+//@   ensures[kw] len(out) == old(len(out)) + 1 ==> prefixof("reverse mapping checking getaddrinfo for ", config.logEntry)
+//@   ensures[nosend] sentlen(config.logins) == old(sentlen(config.logins))
+//@   ensures[ctr] ctrsum == old(ctrsum)
+
+//@ func doesNotMapBackToAddr
+//@   requires CfgOK(config)
+//@   modifies out
+//@   allocates
+//@   ensures[err] result != nil ==> len(out) == old(len(out)) && wfailed
+//@   ensures[one] len(out) == old(len(out)) || len(out) == old(len(out)) + 1
+//@   ensures[match] result == nil && matches(doesNotMapBackToAddrRE, config.logEntry) ==> len(out) == old(len(out)) + 1
+//@   ensures[only] len(out) == old(len(out)) + 1 ==> matches(doesNotMapBackToAddrRE, config.logEntry) && result == nil
+//@   ensures[fields] len(out) == old(len(out)) + 1 ==> Std(config, old(len(out)), "failed")
+//@   |   && Subj(old(len(out)), "loggedAs", "unknown")
+//@   |   && Subj(old(len(out)), "userID", "unknown")
+//@   |   && out[old(len(out))].Source.Value == group(doesNotMapBackToAddrRE, config.logEntry, "Source")
+//@   |   && SrcExtra(old(len(out)), "dns", group(doesNotMapBackToAddrRE, config.logEntry, "DNSName"))
+//@   ensures[sub] len(out) == old(len(out)) + 1 ==> SubjectsFromLine(config, old(len(out))) && FromLine(config, out[old(len(out))].Source.Value)
+//@   ensures[kw] len(out) == old(len(out)) + 1 ==> prefixof("Address ", config.logEntry)
+//@   ensures[nosend] sentlen(config.logins) == old(sentlen(config.logins))
+//@   ensures[ctr] ctrsum == old(ctrsum)
+
+//@ func revokedPublicKeyByFile
+//@   requires CfgOK(config)
+//@   modifies out
+//@   allocates
+//@   ensures[err] result != nil ==> len(out) == old(len(out)) && wfailed
+//@   ensures[one] len(out) == old(len(out)) || len(out) == old(len(out)) + 1
+//@   ensures[match] result == nil && matches(revokedPublicKeyByFileRE, config.logEntry) ==> len(out) == old(len(out)) + 1
+//@   ensures[only] len(out) == old(len(out)) + 1 ==> matches(revokedPublicKeyByFileRE, config.logEntry) && result == nil
+//@   ensures[fields] len(out) == old(len(out)) + 1 ==> Std(config, old(len(out)), "failed")
+//@   |   && Subj(old(len(out)), "loggedAs", "unknown")
+//@   |   && Subj(old(len(out)), "userID", "unknown")
+//@   |   && out[old(len(out))].Source.Value == "unknown"
+//@   |   && Subj(old(len(out)), "keyType", group(revokedPublicKeyByFileRE, config.logEntry, "SSHKeyType"))
+//@   |   && Subj(old(len(out)), "fingerprint", group(revokedPublicKeyByFileRE, config.logEntry, "SSHKeyFingerprint"))
+//@   |   && Subj(old(len(out)), "filePath", group(revokedPublicKeyByFileRE, config.logEntry, "FilePath"))
+//@   ensures[sub] len(out) == old(len(out)) + 1 ==> SubjectsFromLine(config, old(len(out))) && FromLine(config, out[old(len(out))].Source.Value)
+//@   ensures[kw] len(out) == old(len(out)) + 1 ==> prefixof("Authentication key ", config.logEntry)
+//@   ensures[nosend] sentlen(config.logins) == old(sentlen(config.logins))
+//@   ensures[ctr] ctrsum == old(ctrsum)
+
+//@ func revokedPublicKeyByFileErr
+//@   requires CfgOK(config)
+//@   modifies out
+//@   allocates
+//@   ensures[err] result != nil ==> len(out) == old(len(out)) && wfailed
+//@   ensures[one] len(out) == old(len(out)) || len(out) == old(len(out)) + 1
+//@   ensures[match] result == nil && matches(revokedPublicKeyByFileErrRE, config.logEntry) ==> len(out) == old(len(out)) + 1
+//@   ensures[only] len(out) == old(len(out)) + 1 ==> matches(revokedPublicKeyByFileErrRE, config.logEntry) && result == nil
+//@   ensures[fields] len(out) == old(len(out)) + 1 ==> Std(config, old(len(out)), "failed")
+//@   |   && Subj(old(len(out)), "loggedAs", "unknown")
+//@   |   && Subj(old(len(out)), "userID", "unknown")
+//@   |   && out[old(len(out))].Source.Value == "unknown"
+//@   |   && Subj(old(len(out)), "keyType", group(revokedPublicKeyByFileErrRE, config.logEntry, "SSHKeyType"))
+//@   |   && Subj(old(len(out)), "fingerprint", group(revokedPublicKeyByFileErrRE, config.logEntry, "SSHKeyFingerprint"))
+//@   |   && Subj(old(len(out)), "filePath", group(revokedPublicKeyByFileErrRE, config.logEntry, "FilePath"))
+//@   ensures[sub] len(out) == old(len(out)) + 1 ==> SubjectsFromLine(config, old(len(out))) && FromLine(config, out[old(len(out))].Source.Value)
+//@   ensures[kw] len(out) == old(len(out)) + 1 ==> prefixof("Error checking authentication key ", config.logEntry)
+//@   ensures[nosend] sentlen(config.logins) == old(sentlen(config.logins))
+//@   ensures[ctr] ctrsum == old(ctrsum)
+
+//@ func processInvalidUserEntry
+//@   requires CfgOK(config)
+//@   modifies out, ctr
+//@   allocates
+//@   ensures[err] result != nil ==> len(out) == old(len(out)) && wfailed
+//@   ensures[one] len(out) == old(len(out)) || len(out) == old(len(out)) + 1
+//@   ensures[match] result == nil && matches(invalidUserRE, config.logEntry) ==> len(out) == old(len(out)) + 1
+//@   ensures[only] len(out) == old(len(out)) + 1 ==> matches(invalidUserRE, config.logEntry) && result == nil
+//@   ensures[fields] len(out) == old(len(out)) + 1 ==> Std(config, old(len(out)), "failed")
+//@   |   && Subj(old(len(out)), "loggedAs", group(invalidUserRE, config.logEntry, "Username"))
+//@   |   && Subj(old(len(out)), "userID", "unknown")
+//@   |   && out[old(len(out))].Source.Value == group(invalidUserRE, config.logEntry, "Source")
+//@   |   && SrcExtra(old(len(out)), "port", group(invalidUserRE, config.logEntry, "Port"))
+//@   ensures[sub] len(out) == old(len(out)) + 1 ==> SubjectsFromLine(config, old(len(out))) && FromLine(config, out[old(len(out))].Source.Value)
+//@   ensures[nosend] sentlen(config.logins) == old(sentlen(config.logins))
+//@   ensures[ctr] len(out) == old(len(out)) + 1 ==> OneCount("unknown", "failure")
+//@   ensures[ctr0] !matches(invalidUserRE, config.logEntry) ==> ctrsum == old(ctrsum)
